@@ -14,13 +14,13 @@ EXTENDS Index, Json
 VARIABLES stage, case, vws, vix
 vars == <<stage, case, vws, vix>>
 
-IFiles == {"c", "cs", "u", "ti", "m1", "m2", "pk", "m3"}
+IFiles == {"c", "cs", "u", "ti", "m1", "m2", "pk", "m3", "ri", "si"}
 IDirs == {"R", "Rsub", "Rpkg"}
-IDirOf == [f \in IFiles |-> CASE f \in {"c", "ti", "m1", "m2"} -> "R" [] f \in {"cs", "u"} -> "Rsub" [] OTHER -> "Rpkg"]
+IDirOf == [f \in IFiles |-> CASE f \in {"c", "ti", "m1", "m2", "ri"} -> "R" [] f \in {"cs", "u", "si"} -> "Rsub" [] OTHER -> "Rpkg"]
 IParentOf == [d \in IDirs |-> IF d = "R" THEN "NODIR" ELSE "R"]
 IRoleOf == [f \in IFiles |-> CASE f \in {"c", "cs"} -> "conftest" [] f \in {"u", "ti"} -> "test" [] OTHER -> "module"]
-INames == {"fa", "fb", "fc", "fp", "fz"}
-AllUse == <<"fa", "fb", "fc", "fp", "fz">>
+INames == {"fa", "fb", "fc", "fp", "fz", "fr"}
+AllUse == <<"fa", "fb", "fc", "fp", "fz", "fr">>
 
 \* first edge: how the importer reaches its target
 FirstEdges(imp) ==
@@ -30,7 +30,14 @@ FirstEdges(imp) ==
       \* the same re-exporting package referenced by two import statements: its own fixture and one it re-exports
       <<Spelled(Imp("pk", "fp"), lvl), Spelled(Imp("pk", "fc"), lvl)>>,
       <<Spelled(Imp("pk", "fc"), lvl), Spelled(Imp("pk", "fp"), lvl)>>,
-      <<Spelled(Star("pk"), lvl), Spelled(Imp("pk", "fc"), lvl)>> }
+      <<Spelled(Star("pk"), lvl), Spelled(Imp("pk", "fc"), lvl)>>,
+      \* BARE relative imports (no module name after the dots): the importer's own package (`from . import`) or, from
+      \* R/sub/conftest.py, the PARENT package (`from .. import`), i.e. R/__init__.py; and the importer's own package
+      \* __init__ next to a sub-directory conftest (`from . import *` in R/sub/conftest.py -> R/sub/__init__.py)
+      <<Spelled(Star("ri"), lvl)>>, <<Spelled(Imp("ri", "fr"), lvl)>>, <<Spelled(ImpAs("ri", "fr", "fz"), lvl)>> }
+    \cup (IF imp = "cs" THEN { <<Spelled(Star("si"), 0)>>, <<Spelled(Imp("si", "fr"), 0)>>,
+                               <<Spelled(Star("si"), 0), Spelled(Star("ri"), 2)>> }
+          ELSE {})
     \cup (IF imp # "cs" THEN { <<Spelled(Star("m1"), 1)>>, <<Spelled(Plugins("m1"), 1)>>, <<Spelled(Plugins("m3"), 1)>>,
                                <<Spelled(Plugins("m2"), 1), Spelled(Plugins("m1"), 1)>> }   \* last assignment wins
           ELSE {})
@@ -51,7 +58,11 @@ WsOfI(c) ==
          [] f = "m1" -> Module(<<PlainDef("fa", <<>>)>> \o c.m1c)
          [] f = "m2" -> Module(<<PlainDef("fb", <<>>)>> \o c.m2c)
          [] f = "pk" -> Module(<<PlainDef("fp", <<>>)>> \o c.pkc)
-         [] f = "m3" -> Module(<<PlainDef("fc", <<>>)>>)]
+         [] f = "m3" -> Module(<<PlainDef("fc", <<>>)>>)
+         \* package __init__ files exist only where an import statement refers to them
+         [] f = "ri" -> IF \E k \in 1..Len(c.first) : c.first[k].mod = "ri" THEN Module(<<PlainDef("fr", <<>>)>>) ELSE Absent
+         [] f = "si" -> IF \E k \in 1..Len(c.first) : c.first[k].mod = "si"
+                        THEN Module(<<PlainDef(IF Len(c.first) = 2 THEN "fb" ELSE "fr", <<>>)>>) ELSE Absent]
 
 UsingFile(c) == IF c.imp = "ti" THEN "ti" ELSE "u"
 
